@@ -111,10 +111,16 @@ def resolveUseMangled (segs : List Name) (pre : List Name) (i : Info) : Sym :=
   (resolveQualifiedPath segs segs pre i.has).1
 
 /-- `register_alias`.  Since /repo c6822e4 the exported name of a re-export is as visible as its target *at the
-moment the `use` is processed* (a target without an entry counts as public); before, it was always public. -/
+moment the `use` is processed* (a target without an entry counts as public); before, it was always public.
+Since the repair of F12-cycle (`visibility_map.entry(exported).or_insert(..)`) a re-export never replaces an entry the
+visibility map already has (a declared member or an earlier re-export); the alias map is written as before. -/
 def registerAlias (i : Info) (pub : Bool) (pre : List Name) (a : Name) (m : Sym) : Info :=
   let i := { i with alias := ([a], m) :: i.alias }
-  if pub then { i with vis := (pre ++ [a], (get? i.vis m).getD true) :: i.vis, alias := (pre ++ [a], m) :: i.alias } else i
+  if pub then
+    { i with vis := if (get? i.vis (pre ++ [a])).isSome then i.vis
+                    else (pre ++ [a], (get? i.vis m).getD true) :: i.vis,
+             alias := (pre ++ [a], m) :: i.alias }
+  else i
 
 /-- `process_use_statement` -/
 def processUse (pub : Bool) (path : List Name) (t : UseTarget) (pre : List Name) (i : Info) : Info :=
